@@ -1,16 +1,8 @@
-"""Table from which bin/mkmanifest writes MANIFEST.json."""
-M = "Coq theorem over a hand-written executable Gallina model + exact correspondence with the implementation"
-T = "Coq theorem over a model regenerated from the source on every run"
+"""MANIFEST source: one JSON file per claimed property under checks/registry.d/<ID>.json with keys
+technique, design_ref, text (level_claimed.text), note (level_note); optional not_applicable reasons in NOT_APPLICABLE."""
+import json, os, glob
+_d = os.path.join(os.path.dirname(os.path.abspath(__file__)), "registry.d")
+CHECKS = {os.path.basename(f)[:-5]: json.load(open(f)) for f in sorted(glob.glob(os.path.join(_d, "C*.json")))}
+NOT_APPLICABLE = {}
 NOTES = ("All checks: cwd=/verif, honour VERIF_SEED / VERIF_TIER, rebuild from /repo's working tree, write /verif/evidence/<id>.json. "
          "Sixteen genuine defects were repaired by fix: commits in /repo (see known_findings.json 'fixed' and DESIGN.md section 7).")
-NOT_APPLICABLE = {}
-CHECKS = {
- "C16": dict(
-    technique=M,
-    design_ref="DESIGN.md 6 (C16)",
-    text="Full-strength theorem (all n>=1, all non-empty tables with distinct n-bit keys, all value types): the Gallina model of fix_counts returns exactly "
-         "the 2^n keys ascending, every input value under its reversed key, zero elsewhere, never raises; applying it twice restores the orientation. "
-         "Closed under the global context. The model is tied to the code by an exhaustive small-scope + random correspondence run evaluated with vm_compute.",
-    note="Trusted: Coq kernel/vm_compute; the hand-written model Model/FixCounts.v (tied by correspondence only: exhaustive over all non-empty key subsets n<=3 quick / n<=4 thorough, random n<=10); "
-         "Python dict/sorted/int/format semantics as modelled. The Qiskit-ordering clause is the composition with C03's key_order (checked there)."),
-}
